@@ -36,6 +36,8 @@ pub enum Extra {
     UserLock(usize),
     /// the user asks for a handshake with a given address (ChitchatHandle::gossip)
     GossipCmd(usize),
+    /// a handshake request immediately followed by a shutdown request (both queued before the loop looks)
+    GossipThenShutdown(usize),
 }
 
 #[derive(Clone, Debug)]
@@ -165,6 +167,15 @@ pub async fn scenario(script: &[Ev], extra: Extra, out: &mut ScOut) {
     tokio::time::sleep(Duration::from_millis(500)).await;
     for (j, ev) in script.iter().enumerate() {
         let now = Instant::now() - t0;
+        if let Extra::GossipThenShutdown(p) = extra {
+            if p == j && terminal.is_none() {
+                let _ = handle.gossip(addr(30_003));
+                let _ = handle.initiate_shutdown();
+                terminal = Some((3, now));
+                out.c.inc("shutdown_requests");
+                out.c.inc("gossip_then_shutdown");
+            }
+        }
         if let Extra::Shutdown(p) = extra {
             if p == j && terminal.is_none() {
                 let _ = handle.initiate_shutdown();
@@ -500,6 +511,7 @@ pub fn check(args: &Args) -> Outcome {
                 jobs.push((s.clone(), Extra::UserLock(p)));
                 if l <= maxlen.saturating_sub(1) {
                     jobs.push((s.clone(), Extra::GossipCmd(p)));
+                    jobs.push((s.clone(), Extra::GossipThenShutdown(p)));
                 }
             }
         }
@@ -512,8 +524,9 @@ pub fn check(args: &Args) -> Outcome {
         let l = rng.random_range(maxlen + 1..=12);
         // fatal events are rare so that long scripts stay alive
         let s: Vec<Ev> = (0..l).map(|_| [Ev::SendOk, Ev::SendErr, Ev::SendErr, Ev::SendDelay, Ev::RecvSyn, Ev::RecvSyn, Ev::SendOk, if rng.random_bool(0.15) { Ev::RecvFatal } else { Ev::RecvSyn }, if rng.random_bool(0.15) { Ev::RecvPanic } else { Ev::SendDelay }][rng.random_range(0..9)]).collect();
-        let extra = match rng.random_range(0..4) {
+        let extra = match rng.random_range(0..5) {
             0 => Extra::None,
+            4 => Extra::GossipThenShutdown(rng.random_range(0..l)),
             1 => Extra::Shutdown(rng.random_range(0..l)),
             2 => Extra::GossipCmd(rng.random_range(0..l)),
             _ => Extra::UserLock(rng.random_range(0..l)),
